@@ -22,14 +22,20 @@ package tq
 // Every object handed to the retry channel failed with a retriable error and
 // has budget left; a deferred object carries the server's time.
 //@ func (*TransferQueue).handleTransferResult
-//@   props C15
+//@   props C15 C06
+//@   requires @inv q.wait != nil && !q.wait.abort && res.Transfer != nil && q.rc != nil
+//@   ensures @C06 old(has(q.transfers, res.Transfer.Oid)) ==> (q.wait.counter == old(q.wait.counter) - 1 && chsent(retries) == old(chsent(retries))) || (q.wait.counter == old(q.wait.counter) && chsent(retries) == old(chsent(retries)) + 1)
+//@   at send c assert @C06 res.Error == nil
 //@   at send retries assert (err_retriable(res.Error) || err_retriable_later(res.Error)) && q.rc.count[oid] < q.rc.MaxRetries
 //@   at send retries assert err_retriable_later(res.Error) ==> mapval__.retryLaterTime == err_retry_time(res.Error)
 
 // Every retry granted after a failed batch call or an unusable action is
 // within budget and for a retriable error; a Retry-After time is passed on.
 //@ func (*TransferQueue).enqueueAndCollectRetriesFor
-//@   props C15
+//@   props C15 C06
+//@   requires @inv q.wait != nil && !q.wait.abort && q.rc != nil
+//@   loop 4 iter @C06 (len(next) - iter(len(next))) + (iter(q.wait.counter) - q.wait.counter) + (len(toTransfer) - iter(len(toTransfer))) == 1
+//@   at loop 4 entry assert @C06 len(bRes.Objects) == len(batch)
 //@   at call (*tq.TransferQueue).enqueueAndCollectRetriesFor$1:1 assert err_retriable(err) && q.rc.count[t.Oid] < q.rc.MaxRetries
 //@   at call (*tq.TransferQueue).enqueueAndCollectRetriesFor$1:2 assert err_retriable_later(err) && q.rc.count[t.Oid] < q.rc.MaxRetries && readyTime == err_retry_time(err)
 //@   at call (*tq.TransferQueue).enqueueAndCollectRetriesFor$1:3 assert err_retriable(err) && q.rc.count[tr.Oid] < q.rc.MaxRetries
@@ -37,7 +43,10 @@ package tq
 // The retry bookkeeping itself: a server-provided time wins, then an explicit
 // time, else exponential back-off.
 //@ func (*TransferQueue).enqueueAndCollectRetriesFor$1
-//@   props C15
+//@   props C15 C06
+//@   requires @inv t != nil && q != nil && q.rc != nil
+//@   modifies fresh, captured next, field t.ReadyTime, field t.retryLaterTime, mapkey q.rc.count[t.Oid]
+//@   ensures len(next) == old(len(next)) + 1
 //@   ensures old(t.retryLaterTime) != time_zero ==> t.ReadyTime == old(t.retryLaterTime)
 //@   ensures old(t.retryLaterTime) == time_zero && readyTime != nil ==> t.ReadyTime == old(deref(readyTime))
 
@@ -141,3 +150,68 @@ package tq
 //@   ensures result1 == nil ==> result0 != nil && isfresh(result0) && fexists(fpath(result0))
 //@   ensures !isobj(fpath(result0))
 //@   ensures result1 != nil ==> result0 == nil
+
+// C06: accounting.  counter is the number of objects the queue still waits
+// for; chsent(ch) counts sends on a channel.
+//@ func (*abortableWaitGroup).Done
+//@   props C06
+//@   modifies field q.counter
+//@   ensures !q.abort ==> q.counter == old(q.counter) - 1
+//@   ensures q.abort ==> q.counter == old(q.counter)
+//@ func (*abortableWaitGroup).Add
+//@   props C06
+//@   modifies field q.counter
+//@   ensures !q.abort ==> q.counter == old(q.counter) + delta
+//@   ensures q.abort ==> q.counter == old(q.counter)
+
+// A new object id is waited for exactly once; a repeated id is only chained.
+//@ func (*TransferQueue).remember
+//@   props C06
+//@   requires @inv q.wait != nil && !q.wait.abort && t != nil
+//@   ensures !old(has(q.transfers, t.Oid)) ==> q.wait.counter == old(q.wait.counter) + 1
+//@   ensures old(has(q.transfers, t.Oid)) ==> q.wait.counter == old(q.wait.counter)
+//@   ensures has(q.transfers, old(t.Oid))
+
+
+// Progress meter and lazy manifest upgrade (assumed frames: they touch only
+// the meter's own counters / the manifest field).
+//@ func (*TransferQueue).Upgrade
+//@   assumed
+//@   props C06 C15
+//@   modifies field q.manifest
+//@ func (*Meter).FinishTransfer
+//@   assumed
+//@   noeffect
+//@ func (*Meter).StartTransfer
+//@   assumed
+//@   noeffect
+//@ func (*Meter).Skip
+//@   assumed
+//@   noeffect
+//@ func (*Meter).Pause
+//@   assumed
+//@   noeffect
+//@ func (*Meter).Start
+//@   assumed
+//@   noeffect
+//@ func (*Meter).Add
+//@   assumed
+//@   noeffect
+//@ func (*Meter).TransferBytes
+//@   assumed
+//@   noeffect
+
+// Batch API call and adapter selection (assumed frames: network / adapter
+// plumbing; they do not touch the wait group, the retry counter or the
+// transfer table).
+//@ func Batch
+//@   assumed
+//@   props C06 C15
+//@   modifies fresh
+//@   ensures result1 == nil ==> result0 != nil
+//@ func (*TransferQueue).useAdapter
+//@   assumed
+//@   props C06 C15
+//@   modifies field q.adapter, field q.adapterInProgress
+//@ iface (Manifest).Upgrade
+//@   noeffect
